@@ -1031,6 +1031,24 @@ pub fn names_on_disk(layers_dir: &Path) -> BTreeSet<String> {
     s
 }
 
+/// Entries directly below <layers> that belong to none of the given layer names (nor to the
+/// phase outputs): a library call must never leave any.
+pub fn strays(layers_dir: &Path, names: &[&str]) -> Vec<String> {
+    let mut out = vec![];
+    if let Ok(rd) = fs::read_dir(layers_dir) {
+        for e in rd.flatten() {
+            let n = e.file_name().to_string_lossy().to_string();
+            let own = names.iter().any(|l| n == *l || n == format!("{l}.toml") || FORMATS.iter().any(|(_, s)| n == format!("{l}.sbom.{s}")));
+            let output = n == "launch.toml" || n == "store.toml" || n.starts_with("build.sbom.") || n.starts_with("launch.sbom.");
+            if !own && !output {
+                out.push(n);
+            }
+        }
+    }
+    out.sort();
+    out
+}
+
 pub fn remove_layer_completely(layers_dir: &Path, name: &str) {
     let _ = fs::remove_dir_all(layers_dir.join(name));
     let _ = fs::remove_file(layers_dir.join(format!("{name}.toml")));
